@@ -11,12 +11,12 @@ ASSUMPTIONS = [
     "trusted: clang 14 + ASan/UBSan, rapidcheck, OpenSSL libcrypto",
 ]
 SUBS = [
-    dict(name="sha256", quick=dict(cases=30000, shards=2), thorough=dict(cases=300000, shards=2)),
-    dict(name="sha1", quick=dict(cases=30000, shards=2), thorough=dict(cases=300000, shards=2)),
-    dict(name="md5", quick=dict(cases=30000, shards=2), thorough=dict(cases=300000, shards=2)),
-    dict(name="hmac", quick=dict(cases=30000, shards=4), thorough=dict(cases=300000, shards=4)),
-    dict(name="pbkdf2", quick=dict(cases=8000, shards=3), thorough=dict(cases=60000, shards=3)),
-    dict(name="crc32c", quick=dict(cases=40000, shards=2), thorough=dict(cases=400000, shards=2)),
+    dict(name="sha256", quick=dict(cases=30000, shards=2), thorough=dict(cases=200000, shards=2)),
+    dict(name="sha1", quick=dict(cases=30000, shards=2), thorough=dict(cases=200000, shards=2)),
+    dict(name="md5", quick=dict(cases=30000, shards=2), thorough=dict(cases=200000, shards=2)),
+    dict(name="hmac", quick=dict(cases=30000, shards=4), thorough=dict(cases=200000, shards=4)),
+    dict(name="pbkdf2", quick=dict(cases=8000, shards=3), thorough=dict(cases=40000, shards=3)),
+    dict(name="crc32c", quick=dict(cases=40000, shards=2), thorough=dict(cases=300000, shards=2)),
     dict(name="long", quick=dict(cases=1, shards=1), thorough=dict(cases=8, shards=6)),
 ]
 LIB = {"sha256.c", "sha256_shani.c", "sha256_sse2.c", "sha1.c", "md5.c", "crc32c.c", "crc32c_sse42.c",
